@@ -1,8 +1,21 @@
 #!/bin/bash
 # usage: try_patch.sh <patch.diff> <ID> [tier] [extra vcheck args]
 # Applies a seeded change to /repo, runs the check, and always reverts.
+# Seeded patches were made against the pinned commit; when a later "fix:" commit
+# touches the same lines the patch is applied with a 3-way merge and, on
+# conflict, the seeded side wins for the conflicting hunks.
 P=$(readlink -f "$1"); ID=$2; TIER=${3:-quick}; shift 3
-git -C /repo apply "$P" || { echo "patch does not apply"; exit 3; }
-trap 'git -C /repo checkout -- . ' EXIT
+cd /repo || exit 3
+if [ -n "$(git status --porcelain)" ]; then echo "/repo is not clean"; exit 3; fi
+restore() { git -C /repo reset -q --hard HEAD; git -C /repo clean -fdq; }
+trap restore EXIT
+if ! git apply "$P" 2>/dev/null; then
+  if ! git apply --3way "$P" >/dev/null 2>&1; then
+    for f in $(git diff --name-only --diff-filter=U); do git checkout --theirs -- "$f"; git add "$f"; done
+  fi
+  git reset -q
+  echo "(patch applied with 3-way merge)"
+fi
+if ! (export GOFLAGS=-mod=mod GOPROXY=off GOSUMDB=off GOTOOLCHAIN=local; go build ./... ) >/dev/null 2>&1; then echo "patched tree does not build"; exit 3; fi
 cd /verif && ./bin/vcheck run $ID --tier $TIER "$@"
 echo "exit=$?"
